@@ -18,6 +18,7 @@ import tempfile
 import time
 
 VERIF = os.path.dirname(os.path.dirname(os.path.abspath(__file__)))
+EVDIR = os.environ.get('VERIF_EVIDENCE_DIR') or os.path.join(VERIF, 'evidence')
 REPO = os.environ.get('SIGNAL_REPO', '/repo')
 GOENV = dict(os.environ, GOFLAGS='-mod=mod', GOPROXY='off', GOSUMDB='off', GOTOOLCHAIN='local')
 
@@ -94,7 +95,7 @@ def worker(job):
         import traceback
         res = {'entry': fid, 'paths': 0, 'instrs': 0, 'asserts': {}, 'covers': {}, 'violations': [],
                'unsupported': ['engine error: %s' % e], 'unknown': [], 'unwinding_failures': 0, 'panics': 0,
-               'samples': [], 'ended': {}, 'solver': {}, 'traceback': traceback.format_exc(), 'max_loop': 0}
+               'samples': [], 'ended': {}, 'solver': {}, 'traceback': traceback.format_exc(), 'max_loop': 0, 'witnesses': []}
     res['wall_s'] = round(time.time() - t0, 3)
     res['params'] = opts.get('params', {})
     res['fix'] = opts.get('fix')
@@ -186,7 +187,7 @@ def run_check(pid, tier, seed=0):
         # replay gate
         replays = []
         to_replay = []
-        rdir = os.path.join(VERIF, 'evidence', 'replays')
+        rdir = os.path.join(EVDIR, 'replays')
         nvec = 0
         for r in results:
             for v in r['violations']:
@@ -200,11 +201,38 @@ def run_check(pid, tier, seed=0):
                 json.dump(vec, open(path, 'w'), indent=1)
                 to_replay.append((r, v, path))
         confirmed, unconfirmed, known_hits = [], [], []
+        validated, mismatches, notcomparable = 0, [], 0
+        rexe = os.path.join(scratch, 'replay.bin')
+        race = spec.get('race_replay', False)
+        cmd = ['go', 'build', '-trimpath'] + (['-race'] if race and to_replay else []) + ['-o', rexe, './cmd/replay']
+        rc, out, err = sh(cmd, cwd=scratch, timeout=900)
+        if rc == 0:
+            # translator validation: witnesses of completed symbolic paths must run the same way natively
+            wdir = os.path.join(scratch, 'wit')
+            os.makedirs(wdir, exist_ok=True)
+            wl = []
+            for r in results:
+                for w in r.get('witnesses', []):
+                    pth = os.path.join(wdir, 'w%d.json' % len(wl))
+                    json.dump({'entry': entry_key(r['entry']), 'label': '', 'values': w['values'], 'params': r['params']}, open(pth, 'w'))
+                    wl.append((r, w, pth))
+            for i in range(0, len(wl), 100):
+                batch = wl[i:i + 100]
+                try:
+                    rc2, out2, err2 = sh([rexe] + [p for _, _, p in batch], timeout=300)
+                    rows = [json.loads(l) for l in out2.strip().splitlines() if l.startswith('{')]
+                except Exception:
+                    rows = []
+                for j, (r, w, pth) in enumerate(batch):
+                    row = rows[j] if j < len(rows) else {'status': 'crash'}
+                    if row.get('status') == 'ok' and sorted(set(row.get('covered') or [])) == sorted(set(w['covers'])):
+                        validated += 1
+                    elif row.get('status') in ('invalid', 'crash') or 'pool-miss' in w.get('choices', []) or spec.get('race_replay'):
+                        notcomparable += 1
+                    else:
+                        mismatches.append({'harness': entry_key(r['entry']), 'native': row, 'symbolic_covers': w['covers'],
+                                           'values': w['values'][:12]})
         if to_replay:
-            rexe = os.path.join(scratch, 'replay.bin')
-            race = spec.get('race_replay', False)
-            cmd = ['go', 'build'] + (['-race'] if race else []) + ['-o', rexe, './cmd/replay']
-            rc, out, err = sh(cmd, cwd=scratch, timeout=900)
             if rc != 0:
                 print('INCONCLUSIVE property=%s replay build failed: %s' % (pid, err[-2000:]))
                 for r, v, path in to_replay:
@@ -282,6 +310,8 @@ def run_check(pid, tier, seed=0):
                 lines.append(r['traceback'])
         for m in missing:
             lines.append('INCONCLUSIVE property=%s entry %s not found in the harness package' % (pid, m))
+        for mm in mismatches[:5]:
+            lines.append('INCONCLUSIVE property=%s TRANSLATION-MISMATCH harness=%s: a path witness runs differently natively: %s' % (pid, mm['harness'], json.dumps(mm)[:400]))
         # vacuity: required covers
         vac = []
         agg = {}
@@ -298,7 +328,7 @@ def run_check(pid, tier, seed=0):
             lines.append('VACUOUS property=%s harness=%s cover %s not reached' % (pid, e, c))
         wall = time.time() - t_start
         write_evidence(pid, tier, seed, spec, ir, results, confirmed, unconfirmed, wall, known_hits=known_hits,
-                       fe_time=fe_time, vacuous=vac, missing=missing, violations=sum(viol_count.values()))
+                       fe_time=fe_time, vacuous=vac, missing=missing, validated=validated, mismatches=mismatches, notcomparable=notcomparable, violations=sum(viol_count.values()))
         tot_paths = sum(r['paths'] for r in results)
         tot_q = sum(r.get('solver', {}).get('queries', 0) for r in results)
         lines.append('property=%s tier=%s harness-instantiations=%d paths=%d solver-queries=%d wall=%.1fs exit=%d' % (
@@ -310,7 +340,7 @@ def run_check(pid, tier, seed=0):
 
 
 def write_evidence(pid, tier, seed, spec, ir, results, confirmed, unconfirmed, wall, known_hits=(), fe_time=0.0,
-                   vacuous=(), missing=(), note=None, violations=0):
+                   vacuous=(), missing=(), note=None, violations=0, validated=0, mismatches=(), notcomparable=0):
     from . import stubs
     states = sum(r['paths'] for r in results)
     trans = sum(r['instrs'] for r in results)
@@ -341,7 +371,9 @@ def write_evidence(pid, tier, seed, spec, ir, results, confirmed, unconfirmed, w
         'property_id': pid, 'tier': tier, 'seed': seed, 'level': 'model_checking',
         'coverage': {
             'states': max(states, 0), 'transitions': max(trans, 0),
-            'traces_validated_against_impl': len(confirmed),
+            'traces_validated_against_impl': validated + len(confirmed),
+            'path_witnesses': {'agreed_with_native_run': validated, 'mismatches': list(mismatches)[:10], 'not_comparable': notcomparable,
+                               'rule': 'for up to 2 completed symbolic paths per harness instantiation the solver produces a concrete input of that path; the natively compiled harness must finish without a failed assertion and reach exactly the same Cover labels'},
             'samples': samples,
             'explanation': 'symbolic execution of the go/ssa of the current /repo tree; states = feasible symbolic paths explored to completion, transitions = SSA instructions executed symbolically; every assertion is an SMT query over all inputs of that path',
             'technique': 'SSA->SMT symbolic execution (z3), counterexamples replayed natively',
@@ -375,8 +407,8 @@ def write_evidence(pid, tier, seed, spec, ir, results, confirmed, unconfirmed, w
     }
     if note:
         ev['coverage']['note'] = note
-    os.makedirs(os.path.join(VERIF, 'evidence'), exist_ok=True)
-    json.dump(ev, open(os.path.join(VERIF, 'evidence', pid + '.json'), 'w'), indent=1)
+    os.makedirs(EVDIR, exist_ok=True)
+    json.dump(ev, open(os.path.join(EVDIR, pid + '.json'), 'w'), indent=1)
 
 
 def _sum_covers(results):
